@@ -5,6 +5,7 @@ import (
 	"errors"
 	"fmt"
 	"reflect"
+	"runtime"
 	"strings"
 	"testing"
 
@@ -117,7 +118,7 @@ func genCase(t *rapid.T) Case {
 	case b == 6 && gen.Uniform(t, "illegal", 3) == 0:
 		c.Bounds = rapid.SampledFrom([][]int{{2, 1}, {-1}, {0, -1}, {1}, {1, 2}}).Draw(t, "illegalbounds")
 	}
-	c.Mode = rapid.SampledFrom([]string{"ok", "ok", "ok", "err", "valerr", "panic-err", "panic-val"}).Draw(t, "mode")
+	c.Mode = rapid.SampledFrom([]string{"ok", "ok", "ok", "err", "valerr", "panic-err", "panic-val", "panic-runtime"}).Draw(t, "mode")
 	// argument count around the bounds
 	lo, hi := fixed, fixed
 	if variadic {
@@ -353,6 +354,11 @@ func check(c Case) pbt.Verdict {
 		case mode == "panic-err":
 			if r.Err == nil || !errors.Is(r.Err, p.sentinel) {
 				return pbt.Failf("panic-not-wrapped", "%s: panic(error) must become an error wrapping the original; got value=%v err=%v", desc, r.Val, r.Err)
+			}
+		case mode == "panic-runtime":
+			var re runtime.Error
+			if r.Err == nil || !errors.As(r.Err, &re) {
+				return pbt.Failf("panic-not-wrapped", "%s: a runtime panic must become an error that still wraps the original runtime.Error; got value=%v err=%v", desc, r.Val, r.Err)
 			}
 		case mode == "panic-val":
 			ev, has := box.ErrorValue(r.Err)
